@@ -190,7 +190,11 @@ def check(repo, rep):
                 wr = [e[1][2][0] for e in l.effects if e[0] == 'call' and e[1][0] == 'call' and e[1][1][0] == 'attr' and e[1][1][2] in ('writeframes', 'writeframesraw') and e[1][2]]
                 st = [e for e in l.effects if e[0] == 'store' and e[1] == ('attr', ('self',), ff)]
                 if not fc:
-                    rep.unknown('joiner: a path of the event writer does not test the first-event flag')
+                    # no first/later distinction on this path: then no separator may be written at all (nothing before the first or after the last event)
+                    rep.ob('joiner: a separator is written only between two events (never on a path that does not know whether an event came before)', wr == [dp], W(wev), 'AudioEventsJoinerWorker.%s[unconditional]' % wev.name,
+                           'writes %s without testing the first-event flag' % [show(w)[:40] for w in wr])
+                    nfirst += 1
+                    nlater += 1
                     continue
                 if fc[0][1]:
                     nfirst += 1
